@@ -1,5 +1,6 @@
 import NomtModel.Store.WalEncode
 import NomtModel.Store.WalRedoLemmas
+import NomtModel.Store.WalRedoTable
 /-!
 # C03 (topic: the bitbox write-ahead log) — what is written before the meta swap is what recovery re-applies
 
@@ -239,5 +240,63 @@ theorem T3_redo_omitted_slot_counterexample :
     · intro e
       rw [e, hold0 32 (by omega)] at h32
       cases h32
+
+/-! ## the redo loop on the whole hash table -/
+
+/-- T3.log-1 **recovery = reader ∘ redo loop**: on the blob the builder wrote for `(seqn, entries)`, `bitbox::recover`
+leaves the table untouched when `seqn` is not the manifest's sync sequence number (the WAL of a sync that never wrote
+its meta page, or of one that concluded) and otherwise applies exactly `entries` in order. -/
+theorem T3_recover_is_redo (hash : Bytes → Nat) (syncSeqn : Nat) (T : Table) (seqn : Nat) (hs : seqn < 2 ^ 32)
+    (es : List Entry) (hes : ∀ e ∈ es, e.Honest) :
+    recover hash syncSeqn T (encode seqn es).toArray = if seqn ≠ syncSeqn then .ok T else redoAll hash T es :=
+  recover_encode hash syncSeqn T seqn hs es hes
+
+/-- T3.log-2 **the redo loop depends only on what the log does not write**: two hash tables of the same size that
+agree on every position the log does not write (meta bytes of other buckets, bytes of other buckets, bytes of the
+named buckets outside the diffs' slots / label / elided bits) are taken to the SAME table.  So any loss or tearing of
+the post-meta write-out (which touches exactly the written positions) is repaired by recovery. -/
+theorem T3_redo_log_depends_only_outside (hash : Bytes → Nat) (es : List Entry) (hes : ∀ e ∈ es, e.Honest)
+    {T1 T2 : Table} (w1 : T1.WF) (w2 : T2.WF) (hs : T1.SameSize T2)
+    (hag : ∀ p, ¬ writesAll es p → T1.at p = T2.at p) {U : Table} (h : redoAll hash T1 es = .ok U) :
+    redoAll hash T2 es = .ok U :=
+  redoAll_agree hash es hes w1 w2 hs hag h
+
+/-- T3.log-3 **redo of the log is idempotent, also after a crash in the middle of recovery**: if recovery of `T` gives
+`U`, recovery restarted on the table left after any prefix of the log was applied (`k = es.length`: after all of it)
+gives `U` again. -/
+theorem T3_redo_log_idempotent (hash : Bytes → Nat) (es : List Entry) (hes : ∀ e ∈ es, e.Honest)
+    {T U : Table} (w : T.WF) (h : redoAll hash T es = .ok U) (k : Nat) :
+    ∃ Tk, redoAll hash T (es.take k) = .ok Tk ∧ redoAll hash Tk es = .ok U :=
+  redoAll_prefix_absorbed hash es hes w h k
+
+/-- T3.log-4 the redo loop does not fail (no error, no panic site) on honest entries whose buckets exist, and changes
+only positions the log writes. -/
+theorem T3_redo_log_total (hash : Bytes → Nat) (es : List Entry) (hes : ∀ e ∈ es, e.Honest) {T : Table} (w : T.WF)
+    (hf : ∀ e ∈ es, e.fits T.meta.length T.pages.length) :
+    ∃ U, redoAll hash T es = .ok U ∧ U.WF ∧ T.SameSize U ∧ ∀ p, ¬ writesAll es p → U.at p = T.at p := by
+  obtain ⟨U, h⟩ := redoAll_ok hash es hes w hf
+  exact ⟨U, h, redoAll_frame hash es hes w h⟩
+
+/-- non-vacuity of the table theorems: a two-bucket table and a log with an update and a clear entry -/
+example : ∃ U, redoAll (fun _ => 0) ⟨List.replicate 4096 0, [exOld, exOld]⟩ [updateOf exPage ⟨3, 0⟩ 1, Entry.clear 0] = .ok U := by
+  have hes : ∀ e ∈ [updateOf exPage ⟨3, 0⟩ 1, Entry.clear 0], e.Honest := by
+    intro e he
+    simp only [List.mem_cons, List.not_mem_nil, or_false] at he
+    rcases he with rfl | rfl
+    · exact updateOf_honest exPage_length (by decide) plain_3 (by omega)
+    · show 0 < 2 ^ 64; omega
+  have w : Table.WF ⟨List.replicate 4096 0, [exOld, exOld]⟩ := by
+    intro p hp
+    simp only [List.mem_cons, List.not_mem_nil, or_false] at hp
+    rcases hp with rfl | rfl <;> exact exOld_length
+  obtain ⟨U, h, _⟩ := T3_redo_log_total (fun _ => 0) _ hes w (by
+    intro e he
+    simp only [List.mem_cons, List.not_mem_nil, or_false] at he
+    rcases he with rfl | rfl
+    · show 1 < (List.replicate 4096 (0 : UInt8)).length ∧ 1 < 2
+      rw [List.length_replicate]; omega
+    · show 0 < (List.replicate 4096 (0 : UInt8)).length
+      rw [List.length_replicate]; omega)
+  exact ⟨U, h⟩
 
 end Nomt.C03
